@@ -456,31 +456,35 @@ impl HierarchicalKeyDerivation {
             current_chaincode = new_chaincode;
         }
 
-        // Derive ML-DSA key material deterministically
-        let mut derived = vec![0u8; ML_DSA_PUB_LEN + ML_DSA_SEC_LEN];
+        // Derive the ML-DSA key-generation seed deterministically, then run the real
+        // ML-DSA-65 key generation on it so that the two keys form a key pair.
+        let mut keygen_seed = [0u8; MASTER_SEED_SIZE];
         HkdfSha3_256::derive(
             &current_key,
             Some(&current_chaincode),
             b"ml-dsa keypair",
-            &mut derived,
+            &mut keygen_seed,
         )
         .map_err(|_| {
             P2PError::Security(SecurityError::InvalidKey(
                 "HKDF derivation failed".to_string().into(),
             ))
         })?;
-        let pub_bytes = &derived[..ML_DSA_PUB_LEN];
-        let sec_bytes = &derived[ML_DSA_PUB_LEN..];
-        let public_key = MlDsaPublicKey::from_bytes(pub_bytes).map_err(|e| {
+        let keypair =
+            crate::quantum_crypto::ant_quic_integration::ml_dsa_keypair_from_seed(&keygen_seed);
+        keygen_seed.zeroize();
+        let (public_key, secret_key) = keypair.map_err(|e| {
             P2PError::Security(SecurityError::InvalidKey(
-                format!("Invalid ML-DSA public key: {e}").into(),
+                format!("ML-DSA key generation from derived seed failed: {e}").into(),
             ))
         })?;
-        let secret_key = MlDsaSecretKey::from_bytes(sec_bytes).map_err(|e| {
-            P2PError::Security(SecurityError::InvalidKey(
-                format!("Invalid ML-DSA secret key: {e}").into(),
-            ))
-        })?;
+        if public_key.as_bytes().len() != ML_DSA_PUB_LEN
+            || secret_key.as_bytes().len() != ML_DSA_SEC_LEN
+        {
+            return Err(P2PError::Security(SecurityError::InvalidKey(
+                "Unexpected ML-DSA key size".to_string().into(),
+            )));
+        }
 
         crate::quantum_crypto::ant_quic_integration::register_debug_ml_dsa_keypair(
             &secret_key,
@@ -490,7 +494,6 @@ impl HierarchicalKeyDerivation {
         // Zeroize temporary key material
         current_key.zeroize();
         current_chaincode.zeroize();
-        derived.zeroize();
 
         Ok(DerivedKey {
             secret_key: std::sync::Arc::new(secret_key),
